@@ -57,4 +57,11 @@ int main(int argc, char *argv[]) {
     }
     std::cout << *cur << '\n';
   }
+  // std::cout never throws: a failed write only shows in the stream state.
+  std::cout.flush();
+  if (!std::cout) {
+    std::cerr << "Error writing to stdout\n";
+    return 1;
+  }
+  return 0;
 }
